@@ -106,6 +106,8 @@ def make_replayer():
             want = ['sum-value']
         if ob.kind.startswith('minmax-') or ob.kind.startswith('max-'):
             want = ['minmax-accepts']
+        if ob.kind == 'minmax-scale':
+            want = ['binop-value', 'imul-value', 'iaddsub-value']
         if ob.kind.startswith('value-'):
             want = ['binop-value', 'sum-value', 'index-value', 'value-none']
         if ob.kind.startswith('dot-'):
@@ -206,6 +208,17 @@ def run(report, tier, seed):
                           detail=o.get('detail'), meta={'line': o['line']}))
         if 'modeling.py:_function.value' not in report.functions:
             report.functions.append('modeling.py:_function.value')
+    except KeyError as e:
+        report.error('function under contract no longer exists: %s' % e)
+    try:
+        for o in function_index_spec.mmul_obligations(
+                10000 if tier == 'quick' else 60000):
+            report.add(Ob(o['id'], o['kind'], o['status'], o['text'],
+                          'modeling.py', by=o['by'], detail=o.get('detail'),
+                          meta={'line': o['line']}))
+        for f_ in ('__mul__', '__neg__', '__pos__'):
+            if 'modeling.py:_minmax.' + f_ not in report.functions:
+                report.functions.append('modeling.py:_minmax.' + f_)
     except KeyError as e:
         report.error('function under contract no longer exists: %s' % e)
     from contracts.py import keytolist_spec
